@@ -500,7 +500,7 @@ def main_(argv):
                     if len(samples) >= 3:
                         break
     ev = dict(
-        property_id=pid, tier=tier, seed=seed, level="proof",
+        property_id=pid, tier=tier, seed=seed, level=cfg.get("level", "proof"),
         coverage=dict(
             obligations=obligations, discharged=discharged,
             checker_cmd=f"cd lean && lake build {' '.join(cfg['modules'])} && lake env lean <#print axioms of each obligation>"
@@ -513,9 +513,10 @@ def main_(argv):
             search_triggers=dict(count=len(trigger_thms), fired=sorted({u[2] for u in triggers_hit}),
                                  meaning="regenerated statement-text facts of mirrored functions; a change widens the correspondence search, it is not an obligation"),
             evaluations=total_ops, distinct_nontrivial=len(distinct),
-            rule="each operation is executed on the real application (message server under branch/recover/commit) and replayed on "
+            rule=cfg.get("rule",
+                 "each operation is executed on the real application (message server under branch/recover/commit) and replayed on "
                  "the Lean model from the implementation's own pre-state; distinct = (model branch, accepted/rejected, magnitude "
-                 "class) triples observed; every one is non-trivial (an accepted state change or a rejection)",
+                 "class) triples observed; every one is non-trivial (an accepted state change or a rejection)"),
             traces_validated_against_impl=len(runs), model_impl_agreements=agree,
             model_impl_disagreements=total_ops - agree, accepted_ops=accepted,
             branch_histogram=dict(tags.most_common()), impl_outcome_histogram=dict(stats.most_common()),
@@ -524,6 +525,8 @@ def main_(argv):
         assumptions=cfg.get("assumptions", ["SDK modules behave as modelled (validated on every operation of the run)"]),
         wall_s=round(time.time() - t0, 1), violations=n_viol,
     )
+    if cfg.get("evidence_notes"):
+        ev["notes"] = cfg["evidence_notes"]
     os.makedirs(EVID, exist_ok=True)
     with open(os.path.join(EVID, f"{pid}.json"), "w") as f:
         json.dump(ev, f, indent=1)
